@@ -136,6 +136,13 @@ func (g *Gen) NewTx(coinbase bool, conflictOdds int) *Tx {
 			tx.AddTxIn(wire.NewTxIn(&op, nil, nil))
 		}
 	}
+	// a third of the transactions carry witness data (their wtxid differs from the
+	// txid every outpoint refers to)
+	if !coinbase && g.R.Intn(3) == 0 {
+		for _, in := range tx.TxIn {
+			in.Witness = wire.TxWitness{{byte(g.N), 0x30, g.Salt}, {0x02, byte(g.N >> 8)}}
+		}
+	}
 	nout := 1 + g.R.Intn(4)
 	if g.R.Intn(8) == 0 {
 		nout = 5 + g.R.Intn(4) // fan-out
